@@ -195,17 +195,6 @@ theorem ptrInvH_overwrite {H : Nat × Nat → Prop} (e : Enc) (b' : Bytes) (hinv
   obtain ⟨ls, en, F, h1, h2, h3, h4⟩ := hinv p hp
   exact ⟨ls, en, F, h1, h2.frame_footprint (Nat.le_refl _) (fun iv hiv => hsame iv (h4 iv hiv)), h3, h4⟩
 
-theorem place_app (e : Enc) (len : Nat) (happ : e.offset = e.buf.length) :
-    e.place len =
-      if e.maxSize < e.offset + len then .err .maxSize e
-      else .ok e.offset { e with buf := e.buf ++ List.replicate len 0, offset := e.offset + len } := by
-  unfold Enc.place Enc.reserve Enc.resize
-  by_cases hc : e.maxSize < e.offset + len
-  · simp [hc]
-  · have h1 : e.offset + len - e.buf.length = len := by omega
-    have h2 : e.buf.take (e.offset + len) = e.buf := List.take_of_length_le (by omega)
-    simp only [hc, ↓reduceIte, h1, h2]
-
 /-- `place`: the reserved octets lie above every footprint, so the invariant holds with the extra
 condition "the run does not touch the place" — which is what `ptrInvH_placeReplace` needs later. -/
 theorem ptrInvH_place {H : Nat × Nat → Prop} (e e' : Enc) (len idx : Nat)
@@ -231,49 +220,6 @@ theorem getElem?_splice (b data : Bytes) (start len i : Nat) (hd : data.length =
     simp only [List.length_append, List.length_take, List.getElem?_drop]
     congr 1
     omega
-
-/-- `emit_slice` when the data fits inside the existing buffer: overwrite in place -/
-theorem emitSlice_overwrite (e : Enc) (data : Bytes) (hin : e.offset + data.length ≤ e.buf.length) :
-    e.emitSlice data =
-      if e.maxSize < e.offset + data.length then .err .maxSize e
-      else .ok () { e with buf := e.buf.take e.offset ++ data ++ e.buf.drop (e.offset + data.length),
-                           offset := e.offset + data.length } := by
-  unfold Enc.emitSlice Enc.write
-  rw [if_neg (by omega)]
-  by_cases hmax : e.maxSize < e.offset + data.length
-  · have : e.offset + data.length > e.maxSize := hmax
-    simp [this]
-  · have hmax' : ¬ (e.offset + data.length > e.maxSize) := hmax
-    simp only [hmax, ↓reduceIte]
-    by_cases hst : e.offset = e.buf.length
-    · have hnil : data = [] := List.eq_nil_of_length_eq_zero (by omega)
-      simp [hst, hnil]
-    · simp only [hst, ↓reduceIte]
-      rw [if_neg (by omega)]
-
-/-- `Place::replace` with `len` octets of data, for a place that lies inside the buffer: the result
-is the buffer with exactly those `len` octets overwritten; offset, limit, candidates unchanged. -/
-theorem placeReplace_spec (e e' : Enc) (start len : Nat) (data : Bytes) (hd : data.length = len)
-    (hin : start + len ≤ e.buf.length)
-    (h : e.placeReplace start len (fun x => x.emitSlice data) = .ok () e') :
-    e' = { e with buf := e.buf.take start ++ data ++ e.buf.drop (start + len) } := by
-  unfold Enc.placeReplace at h
-  simp only at h
-  rw [emitSlice_overwrite _ _ (by simp; omega)] at h
-  simp only at h
-  by_cases hlt : start < e.offset
-  · rw [if_neg (by omega)] at h
-    by_cases hmax : e.maxSize < start + data.length
-    · simp only [hmax, ↓reduceIte] at h
-      split at h
-      · simp at h
-      · split at h <;> simp at h
-    · simp only [hmax, ↓reduceIte] at h
-      rw [if_neg (by omega), if_neg (by omega)] at h
-      simp only [ERes.ok.injEq, true_and] at h
-      rw [← h, hd]
-  · rw [if_pos hlt] at h
-    simp at h
 
 /-- **`Place::replace` of non-name bytes** (the RDLENGTH / header back-patch) preserves the
 invariant when no admitted run touches the place. -/
